@@ -389,4 +389,353 @@ Proof.
   rewrite <- app_assoc. rewrite app_nth2 by lia. rewrite Nat.sub_diag. reflexivity.
 Qed.
 
+
+(* ---------------------------------------------------------------- walks *)
+(* the page behind p's previous cursor has data d (and always reports more, with a next cursor) *)
+Definition prev_ok (d : list Z) (p : cpage) : Prop :=
+  exists qp pp, p_prev p = Some qp /\ page ks qp = Some pp /\ p_data pp = d /\
+                p_has_more pp = true /\ p_next pp <> None.
+
+Fixpoint chain (d : list Z) (ps : list cpage) : Prop :=
+  match ps with
+  | [] => True
+  | p :: r => prev_ok d p /\ chain (p_data p) r
+  end.
+
+Fixpoint more_ok (ps : list cpage) : Prop :=
+  match ps with
+  | [] => True
+  | p :: r => (p_has_more p = true <-> r <> []) /\ more_ok r
+  end.
+
+Lemma walk_next_S : forall f q, walk_next (S f) ks q =
+  match page ks q with
+  | None => None
+  | Some p => match p_next p with
+              | None => Some [p]
+              | Some q' => match walk_next f ks q' with Some ps => Some (p :: ps) | None => None end
+              end
+  end.
+Proof. reflexivity. Qed.
+
+Lemma prev_page : forall pre x post c0 a0, sorted_ks = pre ++ x :: post -> pre = c0 ++ a0 -> length a0 = size ->
+  exists pp, page ks (rq x) = Some pp /\ p_data pp = a0 /\ p_has_more pp = true /\ p_next pp = Some (fq x) /\
+             (p_prev pp = None <-> c0 = []).
+Proof.
+  intros pre x post c0 a0 Hs Hp Hl.
+  destruct c0 as [|c1 c0'].
+  - simpl in Hp. subst pre. eexists. split; [apply (page_rev_short _ _ _ Hs); lia|]. simpl. tauto.
+  - destruct a0 as [|z a]; [simpl in Hl; lia|].
+    eexists. split; [apply (page_rev_long _ _ _ (c1 :: c0') z a Hs Hp Hl); discriminate|]. simpl.
+    repeat split; try reflexivity; intros; discriminate.
+Qed.
+
+Lemma walk_fwd : forall fuel pre x post c0 a0,
+  sorted_ks = pre ++ x :: post -> pre = c0 ++ a0 -> length a0 = size ->
+  (length (x :: post) <= fuel)%nat ->
+  exists ps, walk_next fuel ks (fq x) = Some ps /\ concat (map p_data ps) = x :: post /\
+             chain a0 ps /\ more_ok ps /\ ps <> [] /\
+             Forall (fun p => p_data p <> [] /\ (length (p_data p) <= size)%nat) ps.
+Proof.
+  induction fuel as [|f IH]; intros pre x post c0 a0 Hs Hp Hl Hf; [simpl in Hf; lia|].
+  assert (Hne : pre <> []).
+  { subst pre. destruct a0; [simpl in Hl; lia|]. destruct c0; discriminate. }
+  destruct (prev_page _ _ _ _ _ Hs Hp Hl) as (pp & Hpp & Hd & Hm & Hn & _).
+  destruct (le_lt_dec (length (x :: post)) size) as [Hle|Hgt].
+  - exists [{| p_data := x :: post; p_has_more := false; p_prev := Some (rq x); p_next := None |}].
+    rewrite walk_next_S. rewrite (page_fwd_short _ _ _ Hs Hne Hle). simpl.
+    split; [reflexivity|]. split; [rewrite app_nil_r; reflexivity|].
+    split; [split; [|exact I]; exists (rq x), pp; repeat split; try assumption; rewrite Hn; discriminate|].
+    split; [split; [split; [discriminate|intros H; congruence]|exact I]|].
+    split; [discriminate|]. constructor; [|constructor]. simpl. split; [discriminate|simpl in Hle; lia].
+  - destruct (split_at (x :: post) size Hgt) as (a & y & c & Ha & Hla).
+    assert (Hs' : sorted_ks = (pre ++ a) ++ y :: c) by (rewrite Hs, Ha, app_assoc; reflexivity).
+    assert (Hf' : (length (y :: c) <= f)%nat).
+    { assert (E : length (x :: post) = length (a ++ y :: c)) by (rewrite Ha; reflexivity).
+      rewrite app_length in E. simpl in *. lia. }
+    destruct (IH (pre ++ a) y c pre a Hs' eq_refl Hla Hf') as (ps & Hw & Hc & Hch & Hmo & Hnn & Hfa).
+    exists ({| p_data := a; p_has_more := true; p_prev := Some (rq x); p_next := Some (fq y) |} :: ps).
+    rewrite walk_next_S. rewrite (page_fwd_long _ _ _ _ _ _ Hs Hne Ha Hla). simpl. rewrite Hw.
+    split; [reflexivity|]. split; [rewrite Hc; symmetry; assumption|].
+    split; [split; [|assumption]; exists (rq x), pp; repeat split; try assumption; rewrite Hn; discriminate|].
+    split; [split; [split; [intros _; assumption|reflexivity]|assumption]|].
+    split; [discriminate|]. constructor; [|assumption]. simpl. split; [|lia].
+    destruct a; [simpl in Hla; lia|discriminate].
+Qed.
+
+Lemma walk_init : forall fuel, (length ks < fuel)%nat ->
+  exists p0 r, walk_next fuel ks (init_query size asc) = Some (p0 :: r) /\
+               concat (map p_data (p0 :: r)) = sorted_ks /\
+               p_prev p0 = None /\ chain (p_data p0) r /\ more_ok (p0 :: r) /\
+               (length (p_data p0) <= size)%nat /\
+               Forall (fun p => p_data p <> [] /\ (length (p_data p) <= size)%nat) r.
+Proof.
+  intros fuel Hf. destruct fuel as [|f]; [lia|].
+  pose proof (sort_length asc ks) as Hlen. fold sorted_ks in Hlen.
+  destruct (le_lt_dec (length sorted_ks) size) as [Hle|Hgt].
+  - exists {| p_data := sorted_ks; p_has_more := false; p_prev := None; p_next := None |}, [].
+    rewrite walk_next_S. rewrite (page_init_short Hle). simpl.
+    split; [reflexivity|]. split; [apply app_nil_r|]. split; [reflexivity|]. split; [exact I|].
+    split; [split; [split; [discriminate|intros H; congruence]|exact I]|]. split; [assumption|constructor].
+  - destruct (split_at sorted_ks size Hgt) as (a & y & c & Ha & Hla).
+    assert (Hf' : (length (y :: c) <= f)%nat).
+    { assert (E : length sorted_ks = length (a ++ y :: c)) by (rewrite Ha; reflexivity).
+      rewrite app_length in E. simpl in *. lia. }
+    destruct (walk_fwd f a y c [] a Ha eq_refl Hla Hf') as (ps & Hw & Hc & Hch & Hmo & Hnn & Hfa).
+    exists {| p_data := a; p_has_more := true; p_prev := None; p_next := Some (fq y) |}, ps.
+    rewrite walk_next_S. rewrite (page_init_long _ _ _ Ha Hla). simpl. rewrite Hw.
+    split; [reflexivity|]. split; [rewrite Hc; symmetry; assumption|]. split; [reflexivity|].
+    split; [assumption|]. split; [split; [split; [intros _; assumption|reflexivity]|assumption]|].
+    split; [lia|assumption].
+Qed.
+
 End Column.
+
+(* ================================================================ offset paginator *)
+Section Offset.
+Variable ks : list Z.
+Variable size : nat.
+Variable asc : bool.
+Hypothesis Hsize : (1 <= size)%nat.
+
+Definition osorted : list Z := sort_keys asc ks.
+Definition oq (o : nat) : oquery := {| o_size := size; o_asc := asc; o_offset := Z.of_nat o |}.
+
+Lemma osorted_length : length osorted = length ks.
+Proof. apply sort_length. Qed.
+
+Lemma ofetch_at : forall o, Z.of_nat o <= max_int32 ->
+  ofetch ks (oq o) = Some (firstn (S size) (skipn o osorted)).
+Proof.
+  intros o Ho. unfold ofetch, oq; simpl.
+  assert (Hm : Z.of_nat o >? max_int32 = false).
+  { rewrite Z.gtb_ltb. apply Z.ltb_ge. assumption. }
+  rewrite Hm. fold osorted.
+  assert (Hs : Nat.ltb 0 size = true) by (apply Nat.ltb_lt; lia). rewrite Hs.
+  destruct o as [|o'].
+  - reflexivity.
+  - replace (0 <? Z.of_nat (S o')) with true by (symmetry; apply Z.ltb_lt; lia).
+    rewrite Nat2Z.id. reflexivity.
+Qed.
+
+Lemma oprev_eq : forall o,
+  (if 0 <? Z.of_nat o
+   then Some (with_offset (oq o) (if Z.of_nat o - Z.of_nat size <? 0 then 0 else Z.of_nat o - Z.of_nat size))
+   else None) = if Nat.eqb o 0 then None else Some (oq (o - size)).
+Proof.
+  intros o. destruct o as [|o']; [reflexivity|].
+  replace (0 <? Z.of_nat (S o')) with true by (symmetry; apply Z.ltb_lt; lia).
+  simpl Nat.eqb. unfold with_offset, oq; simpl o_size; simpl o_asc. f_equal. f_equal.
+  destruct (Z.ltb_spec (Z.of_nat (S o') - Z.of_nat size) 0); lia.
+Qed.
+
+Lemma opage_short : forall o, Z.of_nat o <= max_int32 -> (length (skipn o osorted) <= size)%nat ->
+  opage_of ks (oq o) =
+  Some {| op_data := skipn o osorted; op_has_more := false;
+          op_prev := if Nat.eqb o 0 then None else Some (oq (o - size)); op_next := None |}.
+Proof.
+  intros o Ho Hl. unfold opage_of. rewrite (ofetch_at _ Ho). rewrite firstn_short by lia.
+  unfold obuild. change (o_offset (oq o)) with (Z.of_nat o). change (o_size (oq o)) with size. rewrite oprev_eq.
+  replace (Nat.ltb size (length (skipn o osorted))) with false by (symmetry; apply Nat.ltb_ge; assumption).
+  rewrite andb_false_r. reflexivity.
+Qed.
+
+Lemma opage_long : forall o a y c, Z.of_nat o <= max_int32 -> skipn o osorted = a ++ y :: c -> length a = size ->
+  opage_of ks (oq o) =
+  Some {| op_data := a; op_has_more := true;
+          op_prev := if Nat.eqb o 0 then None else Some (oq (o - size)); op_next := Some (oq (o + size)) |}.
+Proof.
+  intros o a y c Ho Ha Hl. unfold opage_of. rewrite (ofetch_at _ Ho). rewrite Ha. rewrite (firstn_S_split' _ _ _ _ Hl).
+  unfold obuild. change (o_offset (oq o)) with (Z.of_nat o). change (o_size (oq o)) with size. rewrite oprev_eq.
+  replace (Nat.ltb size (length (a ++ [y]))) with true by (symmetry; apply Nat.ltb_lt; rewrite app_length; simpl; lia).
+  replace (Nat.eqb size 0) with false by (symmetry; apply Nat.eqb_neq; lia). simpl andb. cbv iota.
+  rewrite removelast_snoc. unfold with_offset, oq; simpl. rewrite Nat2Z.inj_add. reflexivity.
+Qed.
+
+Definition oprev_ok (d : list Z) (p : opage) : Prop :=
+  exists qp pp, op_prev p = Some qp /\ opage_of ks qp = Some pp /\ op_data pp = d /\ op_has_more pp = true.
+
+Fixpoint ochain (d : list Z) (ps : list opage) : Prop :=
+  match ps with
+  | [] => True
+  | p :: r => oprev_ok d p /\ ochain (op_data p) r
+  end.
+
+Fixpoint omore_ok (ps : list opage) : Prop :=
+  match ps with
+  | [] => True
+  | p :: r => (op_has_more p = true <-> r <> []) /\ omore_ok r
+  end.
+
+Lemma owalk_next_S : forall f q, owalk_next (S f) ks q =
+  match opage_of ks q with
+  | None => None
+  | Some p => match op_next p with
+              | None => Some [p]
+              | Some q' => match owalk_next f ks q' with Some ps => Some (p :: ps) | None => None end
+              end
+  end.
+Proof. reflexivity. Qed.
+
+(* the page at offset o - size, for an offset o reached by next *)
+Lemma oprev_page : forall o, Z.of_nat o <= max_int32 -> (size <= o)%nat -> (o < length osorted)%nat ->
+  exists pp, opage_of ks (oq (o - size)) = Some pp /\ op_data pp = firstn size (skipn (o - size) osorted) /\
+             op_has_more pp = true.
+Proof.
+  intros o Hb H1 H2.
+  assert (Hlen : (size < length (skipn (o - size) osorted))%nat) by (rewrite skipn_length; lia).
+  destruct (split_at _ _ Hlen) as (a & y & c & Ha & Hla).
+  eexists. split; [apply (opage_long (o - size) a y c); [lia|assumption|assumption]|]. simpl.
+  split; [|reflexivity]. rewrite Ha. rewrite <- Hla. rewrite firstn_app, Nat.sub_diag, firstn_all. simpl. rewrite app_nil_r. reflexivity.
+Qed.
+
+Lemma skipn_skipn' : forall (l : list Z) n m, skipn n (skipn m l) = skipn (m + n) l.
+Proof.
+  intros l n m; revert l; induction m as [|m IH]; intros l; simpl; [reflexivity|].
+  destruct l; [destruct n; reflexivity|apply IH].
+Qed.
+
+Lemma skipn_add : forall (l : list Z) a y c o n, skipn o l = a ++ y :: c -> length a = n -> skipn (o + n) l = y :: c.
+Proof.
+  intros l a y c o n H Hl. rewrite <- skipn_skipn'. rewrite H. rewrite <- Hl.
+  rewrite skipn_app, Nat.sub_diag, skipn_all. reflexivity.
+Qed.
+
+Lemma owalk_fwd : forall fuel o, Z.of_nat (length ks) <= 2147483648 -> (size <= o)%nat -> (o < length osorted)%nat ->
+  (length (skipn o osorted) <= fuel)%nat ->
+  exists ps, owalk_next fuel ks (oq o) = Some ps /\ concat (map op_data ps) = skipn o osorted /\
+             ochain (firstn size (skipn (o - size) osorted)) ps /\ omore_ok ps /\ ps <> [] /\
+             Forall (fun p => op_data p <> [] /\ (length (op_data p) <= size)%nat) ps.
+Proof.
+  induction fuel as [|f IH]; intros o Hlim H1 H2 Hf; [rewrite skipn_length in Hf; lia|].
+  assert (Hb : Z.of_nat o <= max_int32) by (unfold max_int32; rewrite osorted_length in H2; lia).
+  destruct (oprev_page o Hb H1 H2) as (pp & Hpp & Hd & Hm).
+  assert (Ho0 : Nat.eqb o 0 = false) by (apply Nat.eqb_neq; lia).
+  assert (Hnonempty : skipn o osorted <> []).
+  { intros E. assert (L : length (skipn o osorted) = 0%nat) by (rewrite E; reflexivity). rewrite skipn_length in L. lia. }
+  destruct (le_lt_dec (length (skipn o osorted)) size) as [Hle|Hgt].
+  - eexists. rewrite owalk_next_S. rewrite (opage_short o Hb Hle). simpl. rewrite Ho0.
+    split; [reflexivity|]. simpl. split; [apply app_nil_r|].
+    split; [split; [|exact I]; exists (oq (o - size)), pp; simpl; repeat split; assumption|].
+    split; [split; [split; [discriminate|intros H; congruence]|exact I]|].
+    split; [discriminate|]. constructor; [|constructor]. simpl. split; assumption.
+  - destruct (split_at _ _ Hgt) as (a & y & c & Ha & Hla).
+    pose proof (skipn_add _ _ _ _ _ _ Ha Hla) as Hnext.
+    assert (H2' : (o + size < length osorted)%nat).
+    { assert (L : length (skipn o osorted) = length (a ++ y :: c)) by (rewrite Ha; reflexivity).
+      rewrite skipn_length, app_length in L. simpl in L. lia. }
+    assert (Hf' : (length (skipn (o + size) osorted) <= f)%nat).
+    { rewrite skipn_length in *. lia. }
+    destruct (IH (o + size)%nat Hlim ltac:(lia) H2' Hf') as (ps & Hw & Hc & Hch & Hmo & Hnn & Hfa).
+    replace (o + size - size)%nat with o in Hch by lia.
+    assert (Hfa' : firstn size (skipn o osorted) = a).
+    { rewrite Ha. rewrite <- Hla. rewrite firstn_app, Nat.sub_diag, firstn_all. simpl. apply app_nil_r. }
+    rewrite Hfa' in Hch.
+    eexists. rewrite owalk_next_S. rewrite (opage_long o a y c Hb Ha Hla). simpl. rewrite Ho0. rewrite Hw.
+    split; [reflexivity|]. simpl. split; [rewrite Hc, Hnext; symmetry; assumption|].
+    split; [split; [|assumption]; exists (oq (o - size)), pp; simpl; repeat split; assumption|].
+    split; [split; [split; [intros _; assumption|reflexivity]|assumption]|].
+    split; [discriminate|]. constructor; [|assumption]. simpl. split; [|lia].
+    destruct a; [simpl in Hla; lia|discriminate].
+Qed.
+
+Lemma owalk_init : forall fuel, Z.of_nat (length ks) <= 2147483648 -> (length ks < fuel)%nat ->
+  exists p0 r, owalk_next fuel ks (oinit size asc) = Some (p0 :: r) /\
+               concat (map op_data (p0 :: r)) = osorted /\
+               op_prev p0 = None /\ ochain (op_data p0) r /\ omore_ok (p0 :: r) /\
+               (length (op_data p0) <= size)%nat /\
+               Forall (fun p => op_data p <> [] /\ (length (op_data p) <= size)%nat) r.
+Proof.
+  intros fuel Hlim Hf. destruct fuel as [|f]; [lia|].
+  pose proof osorted_length as Hlen.
+  change (oinit size asc) with (oq 0).
+  assert (Hb0 : Z.of_nat 0 <= max_int32) by (unfold max_int32; simpl; lia).
+  destruct (le_lt_dec (length osorted) size) as [Hle|Hgt].
+  - eexists; exists []. rewrite owalk_next_S. rewrite (opage_short 0 Hb0 Hle). simpl.
+    split; [reflexivity|]. simpl. split; [apply app_nil_r|]. split; [reflexivity|]. split; [exact I|].
+    split; [split; [split; [discriminate|intros H; congruence]|exact I]|]. split; [assumption|constructor].
+  - destruct (split_at _ _ Hgt) as (a & y & c & Ha & Hla).
+    assert (Ha0 : skipn 0 osorted = a ++ y :: c) by exact Ha.
+    pose proof (skipn_add _ _ _ _ _ _ Ha0 Hla) as Hnext. simpl plus in Hnext.
+    assert (H2' : (size < length osorted)%nat) by assumption.
+    assert (Hf' : (length (skipn size osorted) <= f)%nat) by (rewrite skipn_length; lia).
+    destruct (owalk_fwd f size Hlim ltac:(lia) H2' Hf') as (ps & Hw & Hc & Hch & Hmo & Hnn & Hfa).
+    rewrite Nat.sub_diag in Hch. simpl skipn in Hch.
+    assert (Hfa' : firstn size osorted = a).
+    { rewrite Ha. rewrite <- Hla. rewrite firstn_app, Nat.sub_diag, firstn_all. simpl. apply app_nil_r. }
+    rewrite Hfa' in Hch.
+    eexists; exists ps. rewrite owalk_next_S. rewrite (opage_long 0 a y c Hb0 Ha0 Hla). simpl. rewrite Hw.
+    split; [reflexivity|]. simpl. split; [rewrite Hc, Hnext; symmetry; assumption|]. split; [reflexivity|].
+    split; [assumption|]. split; [split; [split; [intros _; assumption|reflexivity]|assumption]|].
+    split; [lia|assumption].
+Qed.
+
+(* beyond MaxInt32 rows the walk cannot complete: some next cursor carries an offset Paginate refuses *)
+Lemma owalk_beyond_limit : forall fuel o, Z.of_nat (length ks) > max_int32 + Z.of_nat size ->
+  owalk_next fuel ks (oq o) = None.
+Proof.
+  induction fuel as [|f IH]; intros o Hbig; [reflexivity|].
+  rewrite owalk_next_S.
+  destruct (Z_le_gt_dec (Z.of_nat o) max_int32) as [Hb|Hb].
+  - assert (Hgt : (size < length (skipn o osorted))%nat).
+    { rewrite skipn_length, osorted_length. unfold max_int32 in *. lia. }
+    destruct (split_at _ _ Hgt) as (a & y & c & Ha & Hla).
+    rewrite (opage_long o a y c Hb Ha Hla). simpl. rewrite IH by assumption. reflexivity.
+  - unfold opage_of, ofetch. simpl o_offset.
+    replace (Z.of_nat o >? max_int32) with true; [reflexivity|]. symmetry. rewrite Z.gtb_ltb. apply Z.ltb_lt. lia.
+Qed.
+
+End Offset.
+
+(* Paginate refuses offsets above MaxInt32: listings by a non-numeric column stop there *)
+Lemma ofetch_limit : forall ks q, o_offset q > max_int32 -> opage_of ks q = None.
+Proof.
+  intros ks q H. unfold opage_of, ofetch. replace (o_offset q >? max_int32) with true; [reflexivity|].
+  symmetry. rewrite Z.gtb_ltb. apply Z.ltb_lt. lia.
+Qed.
+
+(* ---------------------------------------------------------------- consequences in index form *)
+Lemma chain_nth : forall ks d ps k pk pk1, chain ks d ps ->
+  nth_error ps k = Some pk -> nth_error ps (S k) = Some pk1 -> prev_ok ks (p_data pk) pk1.
+Proof.
+  intros ks d ps; revert d; induction ps as [|p r IH]; intros d k pk pk1 Hc Hk Hk1; [destruct k; discriminate|].
+  destruct Hc as [_ Hc]. destruct k as [|k'].
+  - simpl in Hk. injection Hk as <-. simpl in Hk1. destruct r as [|p1 r']; [discriminate|]. simpl in Hk1. injection Hk1 as <-.
+    destruct Hc as [H _]. exact H.
+  - simpl in Hk, Hk1. eapply IH; eassumption.
+Qed.
+
+Lemma ochain_nth : forall ks d ps k pk pk1, ochain ks d ps ->
+  nth_error ps k = Some pk -> nth_error ps (S k) = Some pk1 -> oprev_ok ks (op_data pk) pk1.
+Proof.
+  intros ks d ps; revert d; induction ps as [|p r IH]; intros d k pk pk1 Hc Hk Hk1; [destruct k; discriminate|].
+  destruct Hc as [_ Hc]. destruct k as [|k'].
+  - simpl in Hk. injection Hk as <-. simpl in Hk1. destruct r as [|p1 r']; [discriminate|]. simpl in Hk1. injection Hk1 as <-.
+    destruct Hc as [H _]. exact H.
+  - simpl in Hk, Hk1. eapply IH; eassumption.
+Qed.
+
+Lemma concat_nonempty : forall (A : Type) (f : A -> list Z) (r : list A),
+  Forall (fun p => f p <> []) r -> (concat (map f r) <> [] <-> r <> []).
+Proof.
+  intros A f r H. destruct r as [|p r']; simpl; [tauto|].
+  inversion H as [|? ? Hp _]; subst. split; [discriminate|]. intros _ E. apply app_eq_nil in E. tauto.
+Qed.
+
+Lemma more_ok_nth : forall ps k p, more_ok ps -> Forall (fun p => p_data p <> []) (tl ps) -> nth_error ps k = Some p ->
+  (p_has_more p = true <-> concat (map p_data (skipn (S k) ps)) <> []).
+Proof.
+  induction ps as [|p0 r IH]; intros k p Hm Hf Hk; [destruct k; discriminate|].
+  destruct Hm as [Hm0 Hm]. simpl in Hf. destruct k as [|k'].
+  - simpl in Hk. injection Hk as <-. simpl skipn. rewrite (concat_nonempty _ p_data r Hf). exact Hm0.
+  - simpl in Hk. simpl skipn. apply IH; try assumption. destruct r; simpl; [constructor|]. inversion Hf; assumption.
+Qed.
+
+Lemma omore_ok_nth : forall ps k p, omore_ok ps -> Forall (fun p => op_data p <> []) (tl ps) -> nth_error ps k = Some p ->
+  (op_has_more p = true <-> concat (map op_data (skipn (S k) ps)) <> []).
+Proof.
+  induction ps as [|p0 r IH]; intros k p Hm Hf Hk; [destruct k; discriminate|].
+  destruct Hm as [Hm0 Hm]. simpl in Hf. destruct k as [|k'].
+  - simpl in Hk. injection Hk as <-. simpl skipn. rewrite (concat_nonempty _ op_data r Hf). exact Hm0.
+  - simpl in Hk. simpl skipn. apply IH; try assumption. destruct r; simpl; [constructor|]. inversion Hf; assumption.
+Qed.
